@@ -108,6 +108,24 @@ def check_sequence(case):
                     tol = abs(float(rs) - float(ra)) * 1.5 + 1e-7 if float(ra) > 0 and float(rs) > 0 else 1e-7
                     if (float(ra) == -1) != (xa[i] == -1) or (float(ra) != -1 and abs(xa[i] - float(ra)) > tol):
                         out.fail("interfacial_composition_batch_dependent", "op %d: T=%r g=%r: %r inside an array of %d, %r alone" % (k, T[0], g0[i], xa[i], len(g), float(ra)))
+                # the pairwise form: arrays of temperatures and Gibbs-Thomson energies of equal length (cycles, repeats, equal end points)
+                if op.get("Tpairs"):
+                    Tp = np.array([q[0] for q in op["Tpairs"]], dtype=float)
+                    gp = np.array([q[1] for q in op["Tpairs"]], dtype=float)
+                    Tp0, gp0 = Tp.copy(), gp.copy()
+                    pa, _ = W.getInterfacialComposition(Tp, gp, precPhase=ph)
+                    pa = np.atleast_1d(pa)
+                    if Tp.tobytes() != Tp0.tobytes() or gp.tobytes() != gp0.tobytes():
+                        out.fail("argument_modified", "op %d pairwise getInterfacialComposition modified its arrays" % k)
+                    for i in range(len(Tp0)):
+                        REF.clearCache()
+                        ra, _ = REF.getInterfacialComposition(float(Tp0[i]), float(gp0[i]), precPhase=ph)
+                        rs, _ = REF.getInterfacialComposition(float(Tp0[i]), float(gp0[i]) + 1.0, precPhase=ph)
+                        tol = abs(float(rs) - float(ra)) * 1.5 + 1e-7 if float(ra) > 0 and float(rs) > 0 else 1e-7
+                        if len(pa) != len(Tp0) or (float(ra) == -1) != (pa[i] == -1) or (float(ra) != -1 and abs(pa[i] - float(ra)) > tol):
+                            out.fail("interfacial_composition_batch_dependent", "op %d: pairwise call T=%r g=%r: element %d is %r inside the arrays, %r alone" % (k, Tp0.tolist(), gp0.tolist(), i, pa[i] if len(pa) == len(Tp0) else pa.tolist(), float(ra)))
+                            break
+                    out.label("ic_pairwise_arrays")
             elif kind == "icm" and not cfg["binary"]:
                 # multicomponent interfacial composition: an array of Gibbs-Thomson energies vs one call per energy on the cache-free object
                 g = np.array(op["g"], dtype=float)
@@ -209,6 +227,10 @@ def _seq(draw):
         op = {"kind": kind, "x": xs, "T": Ts, "phase": draw(st.integers(0, 4)), "removeCache": draw(st.booleans())}
         if kind in ("ic", "icm"):
             op["g"] = sorted(10 ** draw(st.floats(0, 4.3)) for _ in range(draw(st.integers(1, 5))))
+            if kind == "ic" and draw(st.booleans()):
+                Tset = [float(np.clip(T0 + d, cfg["T"][0], cfg["T"][1])) for d in (0.0, draw(st.sampled_from([50.0, -40.0, 7.0])), draw(st.sampled_from([-15.0, 90.0])))]
+                pat = draw(st.sampled_from([[0, 1, 0], [0, 0, 1], [1, 0], [0, 1, 2, 0], [2, 1, 0], [0, 1], [0, 1, 1, 0]]))
+                op["Tpairs"] = [[Tset[j], 10 ** draw(st.floats(0, 4.0))] for j in pat]
         if kind == "growth":
             if draw(st.booleans()):
                 op["sd"] = True
